@@ -218,6 +218,11 @@ class C17(core.Check):
             b'10 A=00009:B=010:C=0256', b'99999 X', b'6552 9', b'10 &', b'10 &O', b'10 &h', b'10 &7 7', b'10 A=&O1 2 3:B=&O 7 7 +1', b'10 A=&O1\t7 AND 1', b'10 A=&O177777 1',
         ]
         out = [{'k': 'text', 'syn': i % 3, 'b': list(bytearray(t))} for i, t in enumerate(texts)]
+        data_texts = [b'10 DATA "ab","c:d e"', b'10 DATA "at 9","at 10:30 print"', b'10 data 1,"x:y","p:q r',
+                      b'10 DATA "a":DATA "b","c:d":print 1', b'10 DATA x,"a""b:c d",e:goto 10']
+        out += [{'k': 'text', 'syn': i % 3, 'b': list(bytearray(t)), 'ci': True} for i, t in enumerate(data_texts)]
+        out += [{'k': 'text', 'syn': i % 3, 'b': list(bytearray(b'20 DATA' + t)), 'ci': True, 'data_tail': list(bytearray(t))}
+                for i, t in enumerate([b' "ab","c:d e"', b' "at 9","at 10:30 print",x', b' 1,"x:y","p:q r'])]
         ci_texts = [b'10 X=1 else X=2', b'10 IF A THEN X=1 else X=2', b'20 PRINT 1 eqv 2', b'30 print 2 Eqv 3:?1 eLSE',
                     b'40 for i=1 to 10 step 2', b'50 if x=1.5 then 10 else 20', b'60 a=1 and 2 or 3 xor 4 imp 5 mod 6',
                     b'70 A=1e5:b=1d5:c=&hff:d=&o17:e=1E+5else', b'80 go to 10:go sub 20', b'90 x=3 else y=4 eqv 5',
@@ -249,6 +254,9 @@ class C17(core.Check):
             (0, [['kw', B(b'GOTO')], ['sp'], ['jump', 65529]]), (65529, [['quote', B(b'')]]), (1, []),
             (5, [['kw', B(b'PRINT')], ['sp'], ['str', B(b'abc'), False]]),
             (7, [['data', B(b' "a:b",c')], ['p', 58], ['kw', B(b'END')]]),
+            (10, [['data', B(b' "ab","c:d e"')]]),                                   # seeded C17e witness
+            (11, [['data', B(b' "at 9","at 10:30 print",x')], ['p', 58], ['kw', B(b'END')]]),
+            (12, [['data', B(b' 1,"x:y","p:q r')]]),
             (8, [['name', B(b'A')], ['op', 61], ['hex', 65535], ['op', 43], ['oct', 65535], ['op', 45], ['int', 32767]]),
             (9, [['kw', B(b'ON')], ['sp'], ['kw', B(b'ERL')], ['sp'], ['kw', B(b'GOSUB')], ['sp'], ['jump', 6553], ['p', 44],
                  ['jump', 0]]),
@@ -383,6 +391,17 @@ class C17(core.Check):
             body = progen.line_body(rng, [10, 20, 100, 1000, 65529])
             body = body.encode('latin1')
             text = (b'%d ' % nums[0] if rng.random() < 0.9 else b'') + self._randcase(rng, body)
+            if rng.random() < 0.12:
+                # DATA statement with several quoted / unquoted items, random case of the keyword, maybe more code
+                tail, open_end = G.data_tail(rng)
+                body = self._randcase(rng, b'DATA') + tail
+                if not open_end and rng.random() < 0.5:
+                    body += rng.choice([b':print 1', b': rem x', b":'q", b':DATA "p:q r",s'])
+                text = b'%d ' % nums[0] + body
+                hist['text_data'] = hist.get('text_data', 0) + 1
+                hist['text_progen'] += 1
+                return {'k': 'text', 'syn': syn, 'b': list(bytearray(text[:255])), 'ci': True,
+                        'data_tail': list(bytearray(tail))}
             hist['text_progen'] += 1
         elif r < 0.7:
             # keyword soup: keywords, names, numbers, separators glued with random spacing
@@ -516,7 +535,7 @@ class C17(core.Check):
     def shrink_candidates(self, case):
         """grammar cases are not shrunk: a sub-list of a canonical item list is in general not canonical, so a
         shrunk case would no longer be a witness against the property; byte-string cases lose bytes."""
-        if case['k'] in ('items', 'items_any', 'itext') or 'lits' in case:
+        if case['k'] in ('items', 'items_any', 'itext') or 'lits' in case or 'data_tail' in case:
             return
         v = case['b']
         n = len(v)
@@ -589,6 +608,16 @@ class C17(core.Check):
                 why = self._case_oracle(case)
                 if why:
                     return why
+        if case['k'] == 'text' and 'data_tail' in case:
+            # DATA items, quoted or not, are stored byte for byte up to the end of the statement, and the line
+            # lists as text that re-enters as the identical token line
+            tail = bytes(bytearray(case['data_tail']))
+            if r['tokens'] is None or r['text'] is None:
+                return 'DATA line could not be tokenised / listed'
+            if self._to_token(case['syn'])[b'DATA'] + tail not in r['tokens']:
+                return 'DATA items %r are not stored as typed: tokens %r' % (tail, r['tokens'])
+            if r['tokens2'] != r['tokens']:
+                return 'tokenise(list(T)) != T for a DATA line: listed %r' % (r['text'],)
         if case['k'] == 'text' and 'lits' in case:
             # float literal clause, on the implementation: a line whose number literals are exactly representable
             # with at most 7 / 16 significant digits lists as text that re-enters as the identical token line
